@@ -205,7 +205,7 @@ def run(tier, seed):
             "exact integer comparison of squares, and a failing end point is itself a concrete counter-example. atan_index_aprox 1.25: each "
             "of the 513 binary-search paths returns one constant on an interval of arguments; atan is monotone, so the bound is decided at "
             "the two end points with the interval oracle. Every clause of C19 is decided.")
-    return V.finish("other", expl, "./fx check C19 --tier %s" % tier, extra={"configs": configs, "literals_checked": nlit, "exhaustive": True, "cells": cells})
+    return V.finish("proof", expl, "./fx check C19 --tier %s" % tier, extra={"configs": configs, "literals_checked": nlit, "exhaustive": True, "cells": cells})
 
 
 # ------------------------------------------------------------------ numeric clauses decided cell by cell
